@@ -16,8 +16,8 @@ RULE = ('listing: zip archives with 0..6 members (nested directory members, stor
         'year ends and 29 Feb, names with spaces/UTF-8) under the extensions .zip .jar .war .ear, upper case, a wrong extension '
         'and a configured extra extension, placed at each depth of a small tree x depth windows x filters x ORDER BY x every '
         'LIMIT 0..M+2 x archives on/off, under a controlled clock on every day of month 1..31 of Jan/Mar, 28/29 Feb and both '
-        'year ends; faults: EVERY truncation length 0..L of a small archive, every byte of the archive (local headers, data, central directory, end '
-        'record) set to ^0xFF, ^0x01 and 0x00, unreadable archives (chmod 000 as uid 65534, injected EIO); non-trivial = the '
+        'year ends; faults: EVERY truncation length 0..L of a small archive, every single-bit flip (and ^0xFF, 0x00) of every byte of the archive (local headers, data, central '
+        'directory, end record), every subset of the member list as an archive of its own, unreadable archives (chmod 000 as uid 65534, injected EIO); non-trivial = the '
         'run lists at least one member or the archive is damaged')
 ASSUMPTIONS = ['member rows are modelled with Python zipfile: name, uncompressed size, trailing-slash directory flag, unix mode '
                'from external_attr, DOS timestamp as local wall-clock time',
@@ -28,7 +28,7 @@ BUDGET = {'quick': 55, 'thorough': 900}
 
 
 def bounds(tier):
-    return {'members': '0..6', 'truncations': 'every length', 'flips': 'every byte of the archive (local headers, data, central directory, end record) x 3 values',
+    return {'members': '0..6', 'truncations': 'every length', 'flips': 'every byte of the archive x {^0xFF, ^0x01, 0x00} (thorough: every single-bit flip, two archives, and every subset of the member list as an archive)',
             'clock_days': 'all days of Jan, Feb (leap and non-leap), Mar, Dec 31'}
 
 
@@ -87,15 +87,27 @@ def groups(tier, seed):
                                                                                                (2020, 12, 31), (2021, 12, 31), (2021, 4, 30)]
     for i in range(0, len(days), 6):
         yield {'kind': 'clock', 'days': days[i:i + 6]}
-    small = zbytes(MEMBERS[:3])
-    step = 40
-    for lo in range(0, len(small) + 1, step):
-        yield {'kind': 'trunc', 'range': [lo, min(lo + step, len(small) + 1)]}
-    cd = small.rfind(b'PK\x01\x02')
-    cd0 = small.find(b'PK\x01\x02')
-    for lo in range(0 if tier == 'quick' or True else cd0, len(small), 30):
-        yield {'kind': 'flip', 'range': [lo, min(lo + 30, len(small))]}
+    variants = ['small'] if tier == 'quick' else ['small', 'mid']
+    for v in variants:
+        data = victim(v)
+        for lo in range(0, len(data) + 1, 40):
+            yield {'kind': 'trunc', 'range': [lo, min(lo + 40, len(data) + 1)], 'victim': v}
+        for lo in range(0, len(data), 30 if tier == 'quick' else 12):
+            yield {'kind': 'flip', 'range': [lo, min(lo + (30 if tier == 'quick' else 12), len(data))], 'victim': v,
+                   'bits': True}
     yield {'kind': 'unreadable'}
+    if True:
+        # every subset of the member list as an archive of its own
+        for mask in range(1, 1 << len(MEMBERS)):
+            yield {'kind': 'subset', 'mask': mask}
+
+
+def victim(v):
+    return zbytes(MEMBERS[:3]) if v == 'small' else zbytes([MEMBERS[0], MEMBERS[2], MEMBERS[3], MEMBERS[1], MEMBERS[4]])
+
+
+def victim_members(v):
+    return MEMBERS[:3] if v == 'small' else [MEMBERS[0], MEMBERS[2], MEMBERS[3], MEMBERS[1], MEMBERS[4]]
 
 
 def single(case):
@@ -215,12 +227,19 @@ def eval_group(env, group, tier):
                     ok = not o.timeout and not o.panicked and o.rc == 0 and rows is not None and sorted(rows) == exp
                     emit(['clock', y, mo, d, hh], ok, 'member-date-depends-on-today', dict(o.brief(), query=q, now='%04d-%02d-%02d %02d:30' % (y, mo, d, hh)),
                          layer='clock')
+        elif kind == 'subset':
+            ms = [m for i, m in enumerate(MEMBERS) if group['mask'] >> i & 1]
+            core.materialise(root, {'s.zip': F(data=zbytes(ms)), 'x': F(1)})
+            o = env.run([', '.join(COLS) + ' from . archives order by path into list'], cwd=root)
+            exp = sorted(ordinary_rows(root) + [member_row('s.zip', './s.zip', m) for m in ms], key=lambda r: r[1])
+            rows = o.rows(len(COLS))
+            emit(['subset', group['mask']], o.rc == 0 and not o.err and rows == exp, 'listing:member-subset', dict(o.brief(), n=len(ms)), layer='subset')
         elif kind in ('trunc', 'flip', 'unreadable'):
-            small = zbytes(MEMBERS[:3])
+            small = victim(group.get('victim', 'small'))
             good = zbytes(MEMBERS[3:5])
             base_tree = {'good.zip': F(data=good), 'other.txt': F(3), 'sub': D({'x': F(1)})}
             good_rows = sorted('[./good.zip] ' + m[0] for m in MEMBERS[3:5])
-            real = ['[./bad.zip] ' + m[0] for m in MEMBERS[:3]]
+            real = ['[./bad.zip] ' + m[0] for m in victim_members(group.get('victim', 'small'))]
 
             def run_variant(sub, data=None, user=None, envx=None, intact=False):
                 if only is not None and sub != only:
@@ -266,9 +285,10 @@ def eval_group(env, group, tier):
                     run_variant(['trunc', n], data=small[:n], intact=(n == len(small)))
             elif kind == 'flip':
                 for i in range(group['range'][0], group['range'][1]):
-                    for f in ('ff', '01', '00'):
+                    fl = ['ff', '01', '00'] + (['b%d' % k for k in range(1, 8)] if group.get('bits') else [])
+                    for f in fl:
                         b = bytearray(small)
-                        b[i] = (b[i] ^ 0xFF) if f == 'ff' else (b[i] ^ 0x01) if f == '01' else 0
+                        b[i] = (b[i] ^ 0xFF) if f == 'ff' else (b[i] ^ 0x01) if f == '01' else 0 if f == '00' else b[i] ^ (1 << int(f[1]))
                         if bytes(b) != small:
                             run_variant(['flip', i, f], data=bytes(b))
             else:
